@@ -48,6 +48,7 @@ def main():
                       workers=12, timeout=2400, xmx="10g")
         if not mc.ok:
             raise vlib.InfraError("Generate model violates %s (%s): spec inconsistent" % (mc.violated, trees))
+        vlib.log("MC %s done" % trees)
         ck.add_tlc(mc, "Generate_mc %s MaxFiles=%d W=%s two_runs=%s" % (trees, maxfiles, ws, two))
     sk = vlib.tlc("MCGenerate", "Generate_skip.cfg", workers=8, timeout=1200, xmx="8g")
     if not sk.ok:
@@ -58,6 +59,7 @@ def main():
         neg = vlib.tlc("MCGenerate", name, workers=1, timeout=600)
         if neg.violated != expect:
             raise vlib.InfraError("negative config %s: expected %s, TLC reported %s" % (name, expect, neg.violated))
+    vlib.log("skip + negative configs done")
     ck.set("negative_configs_rejected", 4)
     ck.set("deadlock_check", True)
 
@@ -75,6 +77,7 @@ def main():
             raise vlib.InfraError("two different terminal states for one configuration: the model is not deterministic: %s" % k)
         seen.add(k)
         uniq.append(c)
+    vlib.log("emitted %d cases" % len(uniq))
     if len(uniq) < 200:
         raise vlib.InfraError("only %d cases emitted" % len(uniq))
     sc = vlib.scratch()
@@ -106,6 +109,7 @@ def main():
         ck.violation("NoPanic.SendOnClosedChannel", "generatecmd.Run panicked: send on closed channel", {"report": err[:4000]})
         ck.finish()
     s = vlib.harness_results(ck, p)
+    vlib.log("harness done: %d runs" % s["runs"])
     if s["cases"] != len(uniq) or s["runs"] != s["jobs"] or s["jobs"] != len(uniq) * 3 * reps:
         raise vlib.InfraError("harness executed %s of %d x 3 x %d runs" % (s["runs"], len(uniq), reps))
     if s["hooks"] != hooks:
